@@ -561,7 +561,12 @@ func (ex *Exec) decimalDigits(st *State, v *term.Term, signed bool, minDigits in
 			for j := 0; j < k; j++ {
 				d := ex.Fresh("d", term.BV(8))
 				wd.ds[j] = d
-				cs = append(cs, term.Ult(d, term.Const(8, 10)))
+				// "d is a decimal digit" holds wherever d is used at all: a global definition, visible to the
+				// interval analysis even after states carrying different digit vectors were merged
+				dig := term.Ult(d, term.Const(8, 10))
+				ex.Defs = append(ex.Defs, dig)
+				globalConj = append(globalConj, dig)
+				cs = append(cs, dig)
 				var dz *term.Term
 				if sw >= 8 {
 					dz = term.Zext(d, sw-8)
